@@ -24,7 +24,7 @@ import (
 func init() {
 	register(stream{
 		name: "chain",
-		rule: "real signed delegations (sealed, then decoded) and invocations over a pool of 5 Ed25519 principals, checked with ExecutionAllowed / ExecutionAllowedWithArgsHook against a map-backed loader. Families: (principals) every chain of ≤ K links (K=2 quick, 3 thorough) over every (issuer, audience, subject∈{0,1,2,absent}) assignment × every invocation (issuer, subject) with a varying audience; (commands) conforming chains of 1–3 links with every assignment of a 6-command lattice (top, parent, child, sibling, shared textual prefix) to invocation and links; (time) every present/absent/past/future combination of not-before and expiration on the invocation and each link; (policy) constraining statements distributed over every link × argument maps, with and without an argument hook (replacing, failing); (random) chains of ≤ 8 (40 thorough) links with 0–2 deviations of any kind at any position, missing and duplicated proofs, irrelevant fields varied; (histories) the same invocation token validated several times while the loader's content, the argument hook and the wall clock (a bound two seconds away) change between validations. Added later: every scenario is decided FIVE ways on one token (twice in a row; through the hook entry point with an identity hook; with a hook that first validates an unrelated invocation; with a hook that first validates the scenario's repaired twin) and each verdict is held against the model; after construction the caller adds a key to the Args value it handed in (the token must not change); (twins) principals 5–9 = the key bytes of 0–4 under another key-type codec at every naming position; (key-types) RSA, P-256 and secp256k1 principals at every role, delegations decoded and as constructed; (command-pairs) every ordered pair of valid commands ≤ 4 (5) bytes over {/,a,b} as delegated/invoked and root/leaf, decided one after the other; (after-root, variant-cid, long-then-cut) proofs listed after the root, links named by another CID over the same digest, a 12-link chain alternating with cut versions of itself; (policy-long) 15…1000 always-true statements around the deciding one; (fresh-nbf, iat-future) constructed delegations with not-before = now, invocations issued in the future over not-yet-active links; (shared-policies) delegations built from policy slices that share one backing array; IsValidAt probes at years 1…100000 and 2^53-1 s.; (policy-optional) every operator over an optional selector on missing, null and present arguments at every link; (policy-neighbours) neighbouring links with policies of the same shape over different arguments; (time-far) bounds some 285 years away; (command-multibyte) commands with multi-byte characters sharing prefixes that end inside or right after a character. Non-trivial = the chain has ≥ 1 link and at most two clause groups fail. Distinct = distinct protocol lines.",
+		rule: "real signed delegations (sealed, then decoded) and invocations over a pool of 5 Ed25519 principals, checked with ExecutionAllowed / ExecutionAllowedWithArgsHook against a map-backed loader. Families: (principals) every chain of ≤ K links (K=2 quick, 3 thorough) over every (issuer, audience, subject∈{0,1,2,absent}) assignment × every invocation (issuer, subject) with a varying audience; (commands) conforming chains of 1–3 links with every assignment of a 6-command lattice (top, parent, child, sibling, shared textual prefix) to invocation and links; (time) every present/absent/past/future combination of not-before and expiration on the invocation and each link; (policy) constraining statements distributed over every link × argument maps, with and without an argument hook (replacing, failing); (random) chains of ≤ 8 (40 thorough) links with 0–2 deviations of any kind at any position, missing and duplicated proofs, irrelevant fields varied; (histories) the same invocation token validated several times while the loader's content, the argument hook and the wall clock (a bound two seconds away) change between validations. Added later: every scenario is decided FIVE ways on one token (twice in a row; through the hook entry point with an identity hook; with a hook that first validates an unrelated invocation; with a hook that first validates the scenario's repaired twin) and each verdict is held against the model; after construction the caller adds a key to the Args value it handed in (the token must not change); (twins) principals 5–9 = the key bytes of 0–4 under another key-type codec at every naming position; (key-types) RSA, P-256 and secp256k1 principals at every role, delegations decoded and as constructed; (command-pairs) every ordered pair of valid commands ≤ 4 (5) bytes over {/,a,b} as delegated/invoked and root/leaf, decided one after the other; (after-root, variant-cid, long-then-cut) proofs listed after the root, links named by another CID over the same digest, a 12-link chain alternating with cut versions of itself; (policy-long) 15…1000 always-true statements around the deciding one; (fresh-nbf, iat-future) constructed delegations with not-before = now, invocations issued in the future over not-yet-active links; (shared-policies) delegations built from policy slices that share one backing array; IsValidAt probes at years 1…100000 and 2^53-1 s.; (policy-optional) every operator over an optional selector on missing, null and present arguments at every link; (policy-neighbours) neighbouring links with policies of the same shape over different arguments; (time-far) bounds some 285 years away; (command-multibyte) commands with multi-byte characters sharing prefixes that end inside or right after a character. (case-twins) principals 13–17 = the identifier of 0–4 with the case of one letter flipped, at every naming position; (aligned-repeat) rule-conforming chains in which one delegation occurs twice or the subject reappears; policies that use one selector twice (first where its failure does not decide) and connectives/quantifiers with one operand over missing required and one over missing optional data. Non-trivial = the chain has ≥ 1 link and at most two clause groups fail. Distinct = distinct protocol lines.",
 		run:  runChainStream,
 		eval: evalChain,
 		cmp:  cmpChain,
@@ -137,6 +137,33 @@ func principals() []principal {
 	for _, alg := range []string{"rsa", "p256", "secp256k1"} {
 		k := keyFor(alg, 3)
 		pool = append(pool, principal{k.priv, k.did})
+	}
+	// case twins: principal 13+k is the identifier of principal k with the case of ONE letter flipped (base58 is case-sensitive:
+	// another byte string, hence another principal — one that has no key here; like the twins above it appears only where a
+	// principal is named). did.Parse accepts it as long as the multicodec prefix survives.
+	for k := 0; k < 5; k++ {
+		txt := pool[k].did.String()
+		var twin did.DID
+		found := false
+		for i := len(txt) - 1; i > len("did:key:z")+4 && !found; i-- {
+			c := txt[i]
+			var f byte
+			switch {
+			case c >= 'a' && c <= 'z':
+				f = c - 'a' + 'A'
+			case c >= 'A' && c <= 'Z':
+				f = c - 'A' + 'a'
+			default:
+				continue
+			}
+			if d, err := did.Parse(txt[:i] + string(f) + txt[i+1:]); err == nil && d != pool[k].did && strings.EqualFold(d.String(), txt) {
+				twin, found = d, true
+			}
+		}
+		if !found {
+			panic("no case twin for principal " + fmt.Sprint(k))
+		}
+		pool = append(pool, principal{nil, twin})
 	}
 	return pool
 }
@@ -893,8 +920,15 @@ func runChainStream(c *ctx) error {
 			"P(ceq(" + zq + ",i10))", "P(cgt(" + zq + ",i10))", "P(cge(" + zq + ",i10))", "P(clt(" + zq + ",i10))", "P(cle(" + zq + ",i10))",
 			"P(k(" + zq + "," + hxs("x*") + "))", "P(!(ceq(" + zq + ",i10)))", "P(A(" + zq + ",cgt(2e,i0)))", "P(E(" + zq + ",cgt(2e,i0)))",
 			"P(cle(" + hxs(".z") + ",i10))", "P(cle(" + zq + ",i10);cge(" + hxs(".y?") + ",i1))",
+			// one selector used twice: first where its failure does not decide (inside an `or` whose other branch holds), then required
+			"P(|(ceq(" + hxs(".z") + ",i5);ceq(" + hxs(".y?") + ",i1));cle(" + hxs(".z") + ",i10))",
+			"P(|(cle(" + hxs(".z") + ",i10);!(ceq(" + hxs(".q?") + ",i1)));cle(" + hxs(".z") + ",i10))",
+			// a connective or quantifier with one operand over missing REQUIRED data and one over missing OPTIONAL data, no decisive one
+			"P(&(ceq(" + hxs(".r") + ",i1);ceq(" + zq + ",i5)))", "P(&(ceq(" + zq + ",i5);ceq(" + hxs(".r") + ",i1)))",
+			"P(|(ceq(" + hxs(".r") + ",i1);ceq(" + zq + ",i7)))", "P(|(ceq(" + zq + ",i7);ceq(" + hxs(".r") + ",i1)))",
+			"P(A(" + hxs(".w") + ",&(ceq(" + hxs(".r") + ",i1);ceq(" + hxs(".o?") + ",i1))))",
 		}
-		optArgs := []string{"m()", "m(7a:n)", "m(7a:i5)", "m(7a:i50)", "m(79:n,7a:i5)", "m(7a:s78)", "m(7a:l(i1,i2))", "m(7a:l())"}
+		optArgs := []string{"m()", "m(7a:n)", "m(7a:i5)", "m(7a:i50)", "m(79:n,7a:i5)", "m(7a:s78)", "m(7a:l(i1,i2))", "m(7a:l())", "m(79:i1)", "m(72:i1)", "m(72:i1,7a:i5)", "m(77:l(m(),m(72:i1)))"}
 		for n := 1; n <= 2; n++ {
 			for pos := 0; pos < n; pos++ {
 				for _, pl := range optPols {
@@ -974,6 +1008,36 @@ func runChainStream(c *ctx) error {
 				t.cmd = o
 				c.emitScenario(t, "command-multibyte")
 			}
+		}
+	}
+	// (1c) case twins (principals 13–17): the same places as the twins above
+	for n := 1; n <= 3; n++ {
+		s := conforming(n)
+		s.sub = 13 + s.sub
+		c.emitScenario(s, "case-twins")
+		for j := 0; j < n; j++ {
+			a := conforming(n)
+			a.links[j].aud += 13
+			c.emitScenario(a, "case-twins")
+			b := conforming(n)
+			b.links[j].sub += 13
+			c.emitScenario(b, "case-twins")
+		}
+	}
+	// (1d) aligned chains in which a delegation occurs more than once (the same CID twice in the proof list): a → b → a → b,
+	// a root that delegates to itself first. Rule-conforming, hence allowed.
+	{
+		mk := func(prs []int) scenario {
+			// prs: principals from the subject (root issuer) to the invoker
+			n := len(prs) - 1
+			s := scenario{iss: prs[n], sub: prs[0], aud: -1, cmd: "/"}
+			for i := 0; i < n; i++ {
+				s.links = append(s.links, link{iss: prs[n-1-i], aud: prs[n-i], sub: prs[0], cmd: "/"})
+			}
+			return s
+		}
+		for _, prs := range [][]int{{0, 1, 0, 1}, {0, 0, 0}, {0, 0, 1}, {0, 1, 0, 1, 0, 1}, {0, 1, 2, 0, 1}, {0, 1, 1, 1, 2}} {
+			c.emitScenario(mk(prs), "aligned-repeat")
 		}
 	}
 	// (1b) twins: a principal named in a conforming chain is replaced by the DID that has the same key bytes under
